@@ -11,7 +11,8 @@ EXTENDS Core
 (***************************************************************************)
 (* Calls: <<kind, a, b, c, d>>                                             *)
 (*  1 addnode  n t tid flags(1=force,2=no position,4=no time,8=no track id,*)
-(*                           16=partial per-axis position)                *)
+(*                           16=partial per-axis position, 32=pixels given *)
+(*                           although there is no segmentation)            *)
 (*  2 addedge  u v force                                                   *)
 (*  3 deledge  u v                                                         *)
 (*  4 delnode  n                                                           *)
@@ -50,7 +51,8 @@ AddNodeArgs(c) ==
     [n |-> c[2], t |-> IF Bit(c[5], 2) THEN NoT ELSE c[3], tid |-> IF Bit(c[5], 3) THEN None ELSE c[4],
      \* flag 2: no position; flag 16: only part of a per-axis position - both are "no position"
      pos |-> IF Bit(c[5], 1) \/ Bit(c[5], 4) \/ HasSeg THEN NoPos ELSE UserPos(c[2]), cust |-> None,
-     force |-> Bit(c[5], 0), px |-> {}, pxnone |-> TRUE]
+     \* flag 32: pixels are passed although the tracks have no segmentation
+     force |-> Bit(c[5], 0), px |-> {}, pxnone |-> ~Bit(c[5], 5)]
 
 \* results are normalised to [s, ok, err, emit, ret]
 Norm(r) == [s |-> r.s, ok |-> r.ok, err |-> r.err, emit |-> r.emit, ret |-> r.ok]
